@@ -5,6 +5,8 @@ SPEC = {
     "units": [
         {"name": "splits", "pkg": SS, "kind": "plain", "run": "^TestVerifC15Splits$",
          "quick": {"shards": 6, "timeout": 300}, "thorough": {"shards": 16, "timeout": 1500}},
+        {"name": "padburst", "pkg": SS, "kind": "plain", "run": "^TestVerifC15PadBurst$",
+         "quick": {"shards": 4, "timeout": 300}, "thorough": {"shards": 8, "timeout": 1500}},
         {"name": "sessions", "pkg": SS, "kind": "rapid", "run": "^TestVerifC15Sessions$",
          "quick": {"checks": 1500, "shards": 2, "timeout": 300},
          "thorough": {"checks": 5000, "shards": 16, "timeout": 1500}},
@@ -18,11 +20,14 @@ SPEC = {
 }
 
 TEXT = {
-    "technique": "complete enumeration of response split points + rapid sessions (lock-step, bit flips) + rapid state machine over one state directory against a ticket-store model + free-running concurrent sessions (-race in thorough)",
+    "technique": "complete enumeration of response split points + complete enumeration of the burst padding arithmetic (burst tail x sampled length) + rapid sessions (lock-step, bit flips) + rapid state machine over one state directory against a ticket-store model + free-running concurrent sessions (-race in thorough)",
     "engine": "rapid + enumeration; real client through ClientFactory/ParseArgs/Dial on the gated in-memory wire against the reference ScrambleSuit server verifkit/refss (in-package harness in transports/scramblesuit)",
     "level_text": ("Exploration. Every split point of the server's UniformDH response (quick: the last 64 offsets) is enumerated for padding "
                    "lengths {0,1,15,16,17,1308} and for the lengths that put the response end 1 or 16 bytes behind a Go allocator size class, "
                    "with and without a packet coalesced behind the response; thorough adds every padding length 0..1308 x the last 48 offsets. "
+                   "The real padBurst is called in-package for every burst tail 0..1447 (quick: ~100 boundary tails) x every sampled length "
+                   "21..1448; the reference server opens every padding packet and the padded burst must end `sampled length` bytes into a "
+                   "1448-byte segment (one header short is accepted where two packets are needed: deployed obfsproxy behaviour). "
                    "Generated sessions cut the first flight in up to three segments, interleave server packets (data, padding, PRNG_SEED, "
                    "NEW_TICKET), segment releases, client writes of 0..5000 bytes and read-buffer sizes under a lock-step oracle: at every "
                    "quiescent point after Dial the client has delivered exactly the payload that has arrived in complete packets, a "
